@@ -149,7 +149,7 @@ def check_project(chk, files, texts, cfgs, what, stats):
         r = run_ford(files, texts, cfg)
         if r[0] == "EXC":
             chk.violation("failing-input", {"what": "FORD raised on a generated project", "error": r[1],
-                                            "cfg": cfg, "files": texts}, True)
+                                            "cfg": cfg, "files": texts, "project": files}, True)
             continue
         impl, perms, pages = r
         allnodes = [n for f in files for n, _ in D.walk(f)]
@@ -315,13 +315,13 @@ def end_to_end_one(chk, files, texts, cfg, stats, graph=False):
                 chk.violation("failing-input", {"what": "documentation of an unselected entity appears in the output",
                                                 "entity": n["name"], "kind": n["kind"],
                                                 "path": [(l, q["name"]) for l, q in path], "where": sorted(where),
-                                                "cfg": cfg, "files": texts}, True)
+                                                "cfg": cfg, "files": texts, "project": files}, True)
             for key in keys:
                 stats["e2e-leak:" + key] += 1
                 if not any(x["key"] == key and x.get("status", "open") == "open" for x in chk.findings):
                     chk.violation("failing-input", {"what": "documentation of an unselected entity appears "
                                                             "(unrecorded region " + key + ")", "entity": nodes[i][0]["name"],
-                                                    "where": sorted(where), "cfg": cfg, "files": texts}, True)
+                                                    "where": sorted(where), "cfg": cfg, "files": texts, "project": files}, True)
         # (2) every selected, documented entity whose parent has a page is described somewhere
         for i in sorted(sel):
             n, path = nodes[i]
@@ -341,7 +341,7 @@ def end_to_end_one(chk, files, texts, cfg, stats, graph=False):
                 chk.violation("failing-input", {"what": "a selected, documented entity is described nowhere",
                                                 "entity": n["name"], "kind": n["kind"],
                                                 "path": [(l, q["name"]) for l, q in path], "cfg": cfg,
-                                                "files": texts}, True)
+                                                "files": texts, "project": files}, True)
         # (3) links (also those of graph nodes) point at pages that exist
         for page, targets in hrefs.items():
             for t in targets:
@@ -352,7 +352,7 @@ def end_to_end_one(chk, files, texts, cfg, stats, graph=False):
                         stats["e2e-dangling"] += 1
                         chk.violation("failing-input", {"what": "a link points at the page of an entity that has "
                                                                 "no page (unselected)", "page": page, "href": t,
-                                                        "cfg": cfg, "files": texts}, True)
+                                                        "cfg": cfg, "files": texts, "project": files}, True)
         stats["e2e-pages"] += sum(len(v) for v in page_files.values())
 
 
@@ -487,12 +487,15 @@ def replay(chk, rep):
         print(chk.coq_eval(IMPORTS, f"diagnose {term}"))
         print("judge code:", res)
         return 1 if res and any(c & 1 or (c & 2 and (c >> 2) in (0,) ) for c in res.values()) else 0
-    if "files" in rep and "cfg" in rep:
-        print("re-run of the end-to-end search needs the abstract project; files:", sorted(rep["files"]))
-        for k in ("what", "entity", "where", "page", "href"):
-            if k in rep:
-                print(k, ":", rep[k])
-        return 0
+    if "project" in rep and "cfg" in rep:
+        chk.build(["theories/Corr/C05.vo"])
+        stats = collections.Counter()
+        end_to_end_one(chk, rep["project"], rep["files"], rep["cfg"], stats, graph=True)
+        pend = getattr(chk, "_pending", [])
+        for _, _, payload, _ in pend[:5]:
+            print({k: v for k, v in payload.items() if k not in ("files", "project", "log")})
+        print(dict(stats))
+        return 1 if pend else 0
     print("nothing to replay in", sorted(rep))
     return 0
 
